@@ -31,10 +31,10 @@ def EXHAUSTIVE(tier, cnt):
 
 def plan(tier):
     return [dict(unit="flat", n=31, builds=["py", "so"], fixed_n=True, case_timeout=300, chunk=2),
-            dict(unit="nested", n=200 if tier == "quick" else 5000, builds=["py", "so"], case_timeout=120),
+            dict(unit="nested", n=200 if tier == "quick" else 2000, builds=["py", "so"], case_timeout=120),
             dict(unit="require", n=20 if tier == "quick" else 200, builds=["py"], case_timeout=120),
-            dict(unit="oob", n=150 if tier == "quick" else 4000, builds=["py", "so"], case_timeout=120),
-            dict(unit="run", n=100 if tier == "quick" else 3000, builds=["py", "so"], case_timeout=120)]
+            dict(unit="oob", n=150 if tier == "quick" else 1600, builds=["py", "so"], case_timeout=120),
+            dict(unit="run", n=100 if tier == "quick" else 1200, builds=["py", "so"], case_timeout=120)]
 
 
 def floors(tier):
